@@ -24,6 +24,13 @@ def run(chk):
     # R4 failure atomicity of the string set operation (shared with C11): a failed set must not have freed or written anything
     from . import c11
     c11.r_set(chk, prog, prog.module("json_object.c"))
+    # failure atomicity of the array list (shared with C07): a failed growth / insert / put has written nothing, so the caller's
+    # list is still the valid list it was
+    from . import c07
+    ma = prog.module("arraylist.c")
+    chk.require(ma is not None, "arraylist.c not in the build")
+    c07.r_expand(chk, prog, ma)
+    c07.r_functions(chk, prog, ma)
     chk.undecided_clauses += [
         "that the k-th dynamic allocation of a given workload is handled (fault enumeration is a dynamic technique)",
         "absence of crashes inside libc",
